@@ -386,7 +386,17 @@ fn rejected_payload_variants(rep: &mut Report, lists: &[Vec<&'static str>]) {
                 crate::gen::cap(&ps)
             ));
             cases.push(((*g).clone(), hs, ks, ns, ps));
+            // the same for fields: a rejected field may carry what typeshare would refuse on a field it shares
+            let (ss, kf, ff, bf) = (stems.fresh(&mut rng), stems.fresh(&mut rng), stems.fresh(&mut rng), stems.fresh(&mut rng));
+            src.push_str(&format!(
+                "#[typeshare]\npub struct {} {{\n    pub {kf}: u8,\n    #[cfg({})]\n    #[serde(flatten)]\n    pub {ff}: RejectedOther,\n    #[cfg({})]\n    pub {bf}: u64,\n}}\n",
+                crate::gen::cap(&ss),
+                g.render(),
+                g.render()
+            ));
+            cases.push(((*g).clone(), ss, kf, ff, bf));
         }
+        src.push_str("#[typeshare]\npub struct RejectedOther { pub z: u8 }\n");
         let files = vec![SrcFile { path: "src/lib.rs".into(), source: src.clone() }];
         let tos: Vec<String> = t.iter().map(|s| s.to_string()).collect();
         let out = run_lib(&files, LangId::Ts, &LangCfg::default(), false, &tos);
@@ -572,7 +582,7 @@ pub fn run(ctx: &Ctx) -> (Spec, Report) {
     let spec = Spec {
         level: "exploration",
         rule: format!(
-            "cfg expressions over any/all/not with leaves target_os=a|b|c, feature, unix: all {n3} expressions of depth <= 3 (depth 1 complete, deeper levels pair one deep child with a leaf in both child orders) x all 16 target lists over {{a,b,c,d}} x 5 attachment levels (file level: depth <= 2 in quick), a quarter of the files writing `cfg (` / `cfg<newline>(`; thorough adds all {exhaustive_d4} depth-4 expressions over the reduced alphabet at type level (5 % at the other levels); plus un-guarded untagged enums whose only data variants are rejected (6 guards x 15 target lists: a unit enum remains); plus 98 two-level cases (a guarded field inside a guarded struct variant / struct, 7 x 7 guards) x 16 target lists; plus {n_random} random depth-4 expressions incl. two deep children and 1-3 cfg attributes per element, and {n_cli} trees through the real binary with --target-os a b / -t a b / --target-os=a,b / a repeated name in the middle / an empty entry / one -t per name / no option; decision read from generated TypeScript; a cell is distinct by (level, expression shape, |T|, expected decision)"
+            "cfg expressions over any/all/not with leaves target_os=a|b|c, feature, unix: all {n3} expressions of depth <= 3 (depth 1 complete, deeper levels pair one deep child with a leaf in both child orders) x all 16 target lists over {{a,b,c,d}} x 5 attachment levels (file level: depth <= 2 in quick), a quarter of the files writing `cfg (` / `cfg<newline>(`; thorough adds all {exhaustive_d4} depth-4 expressions over the reduced alphabet at type level (5 % at the other levels); plus un-guarded untagged enums whose only data variants are rejected and structs whose rejected fields carry serde(flatten) / u64 (6 guards x 15 target lists: the item remains, without those members); plus 98 two-level cases (a guarded field inside a guarded struct variant / struct, 7 x 7 guards) x 16 target lists; plus {n_random} random depth-4 expressions incl. two deep children and 1-3 cfg attributes per element, and {n_cli} trees through the real binary with --target-os a b / -t a b / --target-os=a,b / a repeated name in the middle / an empty entry / one -t per name / no option; decision read from generated TypeScript; a cell is distinct by (level, expression shape, |T|, expected decision)"
         ),
         assumptions: vec![
             "the oracle is the rule as worded in the property: N = names under any not(...), P = the others, over all cfg attributes of the element".into(),
